@@ -66,6 +66,10 @@ pub fn run(cases: &[Value], trace: &mut Trace, seed: u64) {
     for (k, case) in cases.iter().enumerate() {
         let mut rng = Rng::new(seed ^ (k as u64).wrapping_mul(0x9876543));
         let adapter = case["adapter"].as_str().unwrap_or("mutex");
+        // descriptor accounting over the whole session (C09): everything either end received, and everything the handler
+        // handed to the library for transmission, must be gone once both endpoints are dropped
+        let watch = FdWatch::start();
+        let mut any_hang = false;
         let (fsock, bsock) = UnixStream::pair().unwrap();
         let fdup = fsock.try_clone().unwrap();
         let bdup = bsock.try_clone().unwrap();
@@ -209,6 +213,7 @@ pub fn run(cases: &[Value], trace: &mut Trace, seed: u64) {
                 "calls": calls, "ncalls": calls.len(), "srv_errs": srv_errs, "stray": stray,
                 "served": served.load(Ordering::SeqCst) - served0, "sent": sent, "server_stuck": server_stuck, "hv": handler_vals}));
             if hang {
+                any_hang = true;
                 break;
             }
         }
@@ -218,5 +223,17 @@ pub fn run(cases: &[Value], trace: &mut Trace, seed: u64) {
         drop(fe);
         let _ = fdup.shutdown(std::net::Shutdown::Both);
         let _ = th.join();
+        {
+            let mut sc = core.s.lock().unwrap();
+            sc.keep.clear();
+            sc.backends.clear();
+            sc.gpus.clear();
+            sc.ret_file = None;
+        }
+        drop(fdup);
+        if !any_hang {
+            // (after a hang the server thread may have been left with the connection: nothing to account for)
+            trace.emit(watch.finish());
+        }
     }
 }
